@@ -29,6 +29,7 @@ def main():
         table.update(checks_cf.CHECKS)
         import checks_sched
         table.update(checks_sched.CHECKS)
+        framework.consts_projection(run)
         table[prop](run)
     except Exception:
         run.proof_failures.append("check machinery failed: " + traceback.format_exc()[-1500:])
